@@ -42,6 +42,12 @@ def opt(x, f=hx) -> str:
     return '~' if x is None else f(x)
 
 
+def ety(e) -> str:
+    """edge type text; after a JSON round trip the code keeps the plain string instead of the enum member"""
+    t = e.get_edge_type()
+    return t.value if hasattr(t, 'value') else str(t)
+
+
 def err_name(e: BaseException) -> str:
     return type(e).__name__
 
@@ -225,7 +231,7 @@ def enc_node(g, n) -> str:
 
 
 def enc_edge(e) -> str:
-    return f'{hx(e.source.identifier)}>{hx(e.destination.identifier)}|{e.get_edge_type().value}|{enc_meta(e.meta)}'
+    return f'{hx(e.source.identifier)}>{hx(e.destination.identifier)}|{ety(e)}|{enc_meta(e.meta)}'
 
 
 def obs(g) -> str:
@@ -251,7 +257,7 @@ def obs(g) -> str:
     for a in names:
         for b in names:
             try:
-                x.append(g.get_edge(a, b).get_edge_type().value)
+                x.append(ety(g.get_edge(a, b)))
             except Exception:  # noqa: BLE001
                 x.append('..')
     parts.append('X:' + ''.join(x))
@@ -289,7 +295,7 @@ def snapshot(g):
     for n in g.get_nodes():
         rec = [n.identifier, n.variable_type.value, cj(n.meta)]
         nodes.append(rec)
-    edges = [[e.source.identifier, e.destination.identifier, e.get_edge_type().value, cj(e.meta)] for e in g.get_edges()]
+    edges = [[e.source.identifier, e.destination.identifier, ety(e), cj(e.meta)] for e in g.get_edges()]
     pc = {n: [sorted(g.get_parents(n)), sorted(g.get_children(n)), sorted(g.get_neighbors(n))] for n in g.get_node_names()}
     extra = {}
     if is_ts(g):
@@ -329,7 +335,7 @@ def views_consistent(g):
         unordered.add(frozenset((s, d)))
         if s not in names or d not in names:
             bad.append(f'edge endpoint is not a node: ({s!r}, {d!r})')
-    ty = {(e.source.identifier, e.destination.identifier): e.get_edge_type().value for e in edges}
+    ty = {(e.source.identifier, e.destination.identifier): ety(e) for e in edges}
     for n in names:
         f = [(e.source.identifier, e.destination.identifier) for e in g.get_edges(source=n)]
         if f != [k for k in keys if k[0] == n]:
